@@ -30,6 +30,7 @@ class Effects:
         self.attr_mut = set()        # (name, attr) attribute rebinding or mutation of name.attr
         self.deep = set()            # names whose reachable state may be changed arbitrarily by a call
         self.opaque_calls = False    # a callable value of unknown origin is called
+        self.ghost_calls = False     # a declared opaque callable is called (ghost call log grows)
 
 
 def _root_name(e):
@@ -62,7 +63,7 @@ def _first_attr(e):
             return None, None
 
 
-def scan_effects(stmts):
+def scan_effects(stmts, opaque_callables=()):
     ef = Effects()
 
     def target(t):
@@ -131,7 +132,9 @@ def scan_effects(stmts):
                                 if isinstance(m, ast.Name):
                                     ef.deep.add(m.id)
                 elif isinstance(f, ast.Name):
-                    if f.id not in PURE_FUNCS:
+                    if f.id in opaque_callables:
+                        ef.ghost_calls = True
+                    elif f.id not in PURE_FUNCS:
                         for a in list(n.args) + [k.value for k in n.keywords]:
                             for m in ast.walk(a):
                                 if isinstance(m, ast.Name):
@@ -310,6 +313,8 @@ def cut_loop(I, key, inv, s, it):
         niter, elem, watched = describe_iter(I, it)
     else:
         niter, elem, watched = None, None, None
+    if inv.get('bind_iter'):
+        fr.locals[inv['bind_iter']] = it     # ghost name for the iterated sequence
     saved_i = fr.locals.get('_i', None)
     fr.locals['_i'] = 0
     if niter is not None:
@@ -317,7 +322,9 @@ def cut_loop(I, key, inv, s, it):
     for nm, goal, text in eval_clauses(I, inv['inv'], f'{lname}-inv-init'):
         I.oblige(nm, goal, {'clause': text})
     # ---- havoc everything the body may change
-    ef = scan_effects(s.body + ([] if not is_for else []))
+    ef = scan_effects(s.body, inv.get('opaque_callables', ()))
+    if ef.ghost_calls and 'calls' in I.ghost.get('__env__', {}):
+        havoc_inplace(I, I.ghost['__env__']['calls'])
     if ef.opaque_calls and not inv.get('allow_opaque_calls'):
         raise Unsupported(f'loop {key}: body calls a computed callable; frame unknown')
     before_shapes = {}
@@ -352,6 +359,10 @@ def cut_loop(I, key, inv, s, it):
                 havoc_inplace(I, v, attrs=inv['frame'][name])
             else:
                 havoc_inplace(I, v)
+    if is_for:
+        # the iterable is re-described in the havocked state: a list iterator reads the *current* list
+        niter, elem, watched = describe_iter(I, it)
+        fr.locals['_n'] = niter
     k = fresh_int('it')
     fr.locals['_i'] = k
     I.assume(k >= 0)
